@@ -7,6 +7,7 @@ CONSTANTS
 INVARIANT WriterMeetsWrite
 INVARIANT ReaderIsFold
 INVARIANT RoundTripI
+INVARIANT FastAgrees
 INVARIANT ResGraphI
 INVARIANT GuardDiscipline
 PROPERTY OnlyGuardActionsTouchDepth
